@@ -37,6 +37,25 @@ def main(argv=None):
             if not ok:
                 print('ANALYSIS-ERROR sensitivity self-test failed for %s (the checker is not trustworthy on this tree)' % a.prop)
                 return 2
+            from . import battery
+            if a.root:
+                battery.ROOT = a.root
+            fa = battery.run_for(a.prop)
+            print('  false-alarm battery %s: 5 whole-package behaviour-preserving rewrites, %d false alarms' % (a.prop, len(fa)))
+            for x in fa[:10]:
+                print('    FALSE-ALARM %s %s %s' % x)
+            try:
+                import json as _json
+                evp = os.path.join(os.path.dirname(os.path.dirname(os.path.abspath(__file__))), 'evidence', a.prop + '.json')
+                d = _json.load(open(evp))
+                d['coverage']['false_alarm_battery'] = {'modes': ['unparse', 'rename', 'rettemp', 'split', 'swap'], 'false_alarms': len(fa),
+                                                        'details': [list(x) for x in fa[:20]]}
+                _json.dump(d, open(evp, 'w'), indent=1, default=str)
+            except OSError:
+                pass
+            if fa:
+                print('ANALYSIS-ERROR %s: the rules fire on behaviour-preserving rewrites of the current tree' % a.prop)
+                return 2
         return rc
     except Exception as e:   # noqa
         from .core import AnalysisError
